@@ -29,3 +29,29 @@ Theorem C20_lin_reg_u64 n (v : @F NumR) xs x : 2 <= n <= 18446744073709551614 ->
   exists s0, linreg_new (pw := PW64) n v = Ok s0 /\
     snd (linreg_next (pw := PW64) (steps (linreg_next (pw := PW64)) s0 xs) x) = linreg_def (Z.to_nat n) (hget v (rev (xs ++ [x]))).
 Proof. exact (linreg_correct (pw := PW64) n v xs x). Qed.
+
+(** all 15 kinds of the MA constructor, any width: the running instance returns the kind's definition for every accepted length
+    of that width ... *)
+From Yata Require Import Spec.IndicatorDefs Core.Candle Core.Action Core.Strings Indicators.Common Methods.Select Proofs.MAProofs Proofs.IndicatorProofs11 Proofs.Selection2.
+Theorem C20_ma_any_width (p : PW) (c : ma_cfg) (v : @F NumR) xs x : ma_len_ok (pw := p) c ->
+  exists s0, ma_init (pw := p) c v = Ok s0 /\
+    snd (ma_next (pw := p) (steps (ma_next (pw := p)) s0 xs) x) = ma_def (pw := p) c v (rev (xs ++ [x])).
+Proof. intros Hl. exact (ma_correct (pw := p) c v xs x (ma_proved_all c) Hl). Qed.
+(** ... hence two widths that both accept the length return the same values for ever (every kind but HMA, whose definition
+    mentions the width through the clamp of its sqrt(n) sub-length) *)
+Theorem C20_ma_width_irrelevant (p q : PW) (c : ma_cfg) (v : @F NumR) xs x : (forall n, c <> MAcfg KHMA n) ->
+  ma_len_ok (pw := p) c -> ma_len_ok (pw := q) c ->
+  exists sp sq, ma_init (pw := p) c v = Ok sp /\ ma_init (pw := q) c v = Ok sq /\
+    snd (ma_next (pw := p) (steps (ma_next (pw := p)) sp xs) x) = snd (ma_next (pw := q) (steps (ma_next (pw := q)) sq xs) x).
+Proof.
+  intros Hk Lp Lq. destruct (C20_ma_any_width p c v xs x Lp) as (sp & Ep & Hp). destruct (C20_ma_any_width q c v xs x Lq) as (sq & Eq & Hq).
+  exists sp, sq. split; [exact Ep|]. split; [exact Eq|]. rewrite Hp, Hq. destruct c as (k, n).
+  destruct k; try reflexivity. exfalso. exact (Hk n eq_refl).
+Qed.
+(** the reversal detectors are definitional at every width (their position counters are re-based, never saturated) *)
+Theorem C20_reversal_any_width (p : PW) lft right (v : @F NumR) xs x : 1 <= lft -> 1 <= right -> lft + right <= @pmax p - 2 ->
+  exists s0, reversal_new (pw := p) lft right v = Ok s0 /\
+    snd (reversal_next (pw := p) (steps (reversal_next (pw := p)) s0 (v :: xs)) x) =
+    let h := hget v (rev ((v :: xs) ++ [x])) in let L := Z.to_nat (lft + right + 1) in let r := Z.to_nat right in
+    a_sub (if Nat.eqb (argbest flt h L) r then a_buy_all else ANone) (if Nat.eqb (argbest fgt h L) r then a_buy_all else ANone).
+Proof. exact (reversal_signal_correct (pw := p) lft right v xs x). Qed.
